@@ -28,6 +28,12 @@ CHECKS["C16"] = dict(engine="scheduler", technique="stateless exploration of all
 CHECKS["C04"] = dict(engine="explorer", technique="bounded exhaustive fault placement (stateless DFS over resolver/type-resolver outcome choices) over an enumerated family of nullability lattices, judged by an intrinsic schema-conformance oracle",
    text="All 7^3 wrapper combinations over a 3-level path x object/interface/union x 5 leaf types (5145 schemas) with every placement of 1 (quick) / 2 (thorough) faults, and a reduced family (3^3 x 3 x 2) with every placement of 2 / 3 faults, drawn from 20 adversarial outcomes (nil, typed nil, NaN, wrong-kind values, 2^31, unknown enum value, \"NaN\"/\"+Inf\" strings, error, value+error, panics with error/string/int, thunks that succeed / fail / return nil / panic, wrong-signature func) and wrong ResolveType answers: data has exactly the selected keys, every leaf is a legal serialisation or null, lists are lists, no null in a non-null position, nulls sit exactly at the nearest nullable ancestor of a fault, every explicit failure is null in data and has an error with its path, every error is explained by a fault, nothing outside faulted subtrees differs from the fault-free run, no resolver runs twice, the result marshals to JSON.",
    ref="5 C04", note="Intrinsic oracle only (no reference interpreter). Known finding C04-F2 (failure escaping through a thunk in a non-null position) is attributed only when data is null and such a thunk fault is present.")
+CHECKS["C03"] = dict(engine="explorer", technique="exhaustive enumeration of token sequences by viable-prefix depth-first search over 6 alphabets (pruned only when both the model and the library reject before the last token), of all byte strings up to a bound over a 23-byte alphabet, and of literal payload / escape / number tables; each text parsed by the library and by an independent LL(1) model",
+   text="~5*10^7 texts (quick): every token sequence up to 6 tokens over the full 37-symbol alphabet and up to 8-11 tokens over focused alphabets (executable, variable definitions, values, fragments/directives, type system), every sequence up to 3 (4) tokens unpruned, every byte string up to 5 (6) bytes over quotes/backslash/#/CR/LF/comma/dot/digits/e/u/braces/e-acute/BOM/tab alone and in two syntactic contexts, every block-string and string payload up to 6 units, all \\uXXXX over 10 hex/non-hex digits, all simple escapes, numeric edge forms. Oracle: accept iff derivable; on accept the complete tree (kinds, names, decoded values, order) and every node's byte span equal the model's; the source bytes are unchanged; token streams equal.",
+   ref="5 C03, appendix A", note="M-syntax (verif/h/msyntax) encodes the target grammar; invalid UTF-8 and surrogate escapes are not judged; the empty document is not judged. Known finding C03-F2 (code-point offsets of Name tokens) is attributed only when the model with that defect's emulation reproduces the library's verdict and tree.")
+CHECKS["C08"] = dict(engine="explorer", technique="exhaustive enumeration (viable-prefix DFS over token alphabets + literal payload tables) of parser-accepted documents; print/parse round-trip law checked on each",
+   text="Every document the library parser accepts in the token enumeration (6 alphabets, 5-11 tokens) and 11 templates x every payload of up to 3 (4) units for quoted strings and block strings (quotes, backslashes, \\u0007, DEL, e-acute, U+1F600, triple quotes, CR/LF, tabs, indentation) in argument, default, directive-argument and description positions: print(ast) parses; the re-parsed AST is structurally identical; print is stable after one round; Print does not modify its input.",
+   ref="5 C08", note="The parser itself is judged by C03.")
 NOT_YET = {}
 ALL = ["C%02d" % i for i in range(1, 21)]
 
